@@ -183,7 +183,7 @@ def run(tier):
                 for construct in EXPR_CONSTRUCTS:
                     if construct == "dictcomp" and kind == "list" and False:
                         continue
-                    for cb_exit in ("", "    fail('boom')\n", "    d1()\n"):
+                    for cb_exit in ("", "    fail('boom')\n", "    d1()\n", "    if i == 3:\n        fail('last')\n"):
                         b = build(kind, c, form, is_stmt, construct, "exhaust", in_def, cb_exit)
                         specs.append({"steps": b[0]})
                         meta.append((kind, form, construct, "cb:" + (cb_exit.strip() or "none"), in_def, b[1], after_enc))
@@ -196,6 +196,35 @@ def run(tier):
             src = f"x = {c}\ny = x\nh = [x]\ndef m():\n{mbody}{stmt}\nemit(['after', fails(m), x])\n"
             specs.append({"steps": [src]})
             meta.append((kind, form, "release:" + name, "n/a", False, False, None))
+    LAST = {"list": {"any": "[0, 0, 3]", "all": "[1, 2, 0]"}, "dict": {"any": "{0: 1, '': 2, 3: 3}", "all": "{1: 1, 2: 2, 0: 3}"},
+            "set": {"any": "set([0, '', 3])", "all": "set([1, 2, 0])"}}
+    EMPTIED = {"list": ["y = [1]\ny.pop()\n", "y = [1, 2]\ny.clear()\n", "y = []\n", "y = list()\n", "y = [1][1:]\n"],
+               "dict": ["y = {}\n", "y = {1: 1}\ny.pop(1)\n", "y = dict()\n", "y = {1: 1}\ny.clear()\n"],
+               "set": ["y = set()\n", "y = set([1])\ny.remove(1)\n", "y = set([1])\ny.clear()\n"]}
+    EMPTY_ITER = ["for i in x:\n    pass\n", "z = [i for i in x]\n", "z = [i for j in [1] for i in x]\n", "z = {i: 1 for i in x}\n",
+                  "z = sorted(x)\n", "z = any(x)\n", "z = all(x)\n", "z = list(x)\n", "z = max(x, default = 0) if False else len(x)\n",
+                  "z = map(lambda i: i, x)\n", "z = filter(None, x)\n", "z = list(enumerate(x))\n", "z = list(zip(x, x))\n",
+                  "def lp():\n    for i in x:\n        return 1\n    return 0\nz = lp()\n", "z = tuple(x)\n", "z = [1 for i in x if i]\n"]
+    # a mutator usable on an empty container of each kind
+    EMPTY_MUT = {"list": ["y.append(9)", "y.extend([9])", "y.insert(0, 9)", "h[0] += [9]"], "dict": ["y.setdefault(9)", "y.update({9: 9})", "y[9] = 9", "h[0] |= {9: 9}"],
+                 "set": ["y.add(9)", "y.update([9])", "h[0] |= set([9])"]}
+    for kind in CONTAINERS:
+        for which, cexpr in LAST[kind].items():
+            for form in EMPTY_MUT[kind]:
+                is_stmt = not form.startswith("y.")
+                mbody = f"    {form}\n" if is_stmt else f"    return {form}\n"
+                for wrap in ("z = {w}(x)\n", "def g():\n    return {w}(x)\nz = g()\n", "z = {w}([v for v in x]) and {w}(x)\n"):
+                    src = f"x = {cexpr}\ny = x\nh = [x]\ndef m():\n{mbody}" + wrap.format(w=which) + "emit(['after', fails(m), 0])\n"
+                    specs.append({"steps": [src]})
+                    meta.append((kind, form, "release:" + which + "_decided_by_last", "n/a", False, False, None))
+        for setup in EMPTIED[kind]:
+            for it in EMPTY_ITER:
+                for form in EMPTY_MUT[kind]:
+                    is_stmt = not form.startswith("y.")
+                    mbody = f"    {form}\n" if is_stmt else f"    return {form}\n"
+                    src = setup + f"x = y\nh = [x]\ndef m():\n{mbody}" + it + "emit(['after', fails(m), 0])\n"
+                    specs.append({"steps": [src]})
+                    meta.append((kind, form, "release:empty:" + it.split("\n")[0][:24], "n/a", False, False, None))
     for i, s in enumerate(specs):
         s["id"] = i
         s["opts"] = {"dialect": "all"}
